@@ -39,15 +39,24 @@ type Dev struct {
 	Slot   string // "" = the whole file is replaced
 	Text   string
 	Absent bool // whole-file only: the file does not exist
-	Core   bool // combined pairwise in the quick tier (thorough pairs everything)
+	Core   bool // combined pairwise in the quick tier
+	Wide   bool // combined pairwise in the thorough tier when the entry restricts its pairs (else thorough pairs everything)
 	Triple bool // takes part in 3-combinations (thorough)
 }
 
+// class is the name of the deviation inside finding keys: the explicit Class
+// when the table gives one, else the place deviated (file#slot, or the file
+// as a whole) - the variant that happened to be the first to fail is left to
+// the message, so that one defect reached through twenty variants of the same
+// field is one key.
 func (d Dev) class() string {
 	if d.Class != "" {
 		return d.Class
 	}
-	return d.ID
+	if d.Slot != "" {
+		return d.File + "#" + d.Slot
+	}
+	return d.File + ":whole"
 }
 
 // variant is the part of the id after "file#slot=" or "file:".
@@ -59,7 +68,7 @@ func (d Dev) variant() string {
 }
 
 // applyTiers sets Core / Triple from selection tables.
-func applyTiers(devs []Dev, pairs, triples map[string]string) {
+func applyTiers(devs []Dev, pairs, triples map[string]string, wide ...map[string]string) {
 	sel := func(m map[string]string, dv *Dev) bool {
 		k := dv.File + ":"
 		if dv.Slot != "" {
@@ -83,7 +92,12 @@ func applyTiers(devs []Dev, pairs, triples map[string]string) {
 	for i := range devs {
 		devs[i].Core = sel(pairs, &devs[i])
 		devs[i].Triple = sel(triples, &devs[i])
-		if devs[i].Core || devs[i].Triple {
+		for _, w := range wide {
+			if sel(w, &devs[i]) {
+				devs[i].Wide = true
+			}
+		}
+		if devs[i].Core || devs[i].Triple || devs[i].Wide {
 			k := devs[i].File + ":"
 			if devs[i].Slot != "" {
 				k = devs[i].File + "#" + devs[i].Slot
@@ -93,7 +107,7 @@ func applyTiers(devs []Dev, pairs, triples map[string]string) {
 		}
 	}
 	// a selection that names nothing is a typo in the table
-	for _, m := range []map[string]string{pairs, triples} {
+	for _, m := range append([]map[string]string{pairs, triples}, wide...) {
 		for k, v := range m {
 			if !used[k] {
 				panic("c20: tier table names unknown slot " + k)
@@ -139,6 +153,12 @@ type docEntry struct {
 	maxK func(thorough bool) int
 	// pairAll: the table is small; combine every deviation in every tier
 	pairAll bool
+	// widePairs: in the thorough tier combine pairwise only the deviations
+	// marked Wide (the full table squared would not fit the time budget)
+	widePairs bool
+	// truncText: additional documents truncated at every byte whose text is
+	// computed (a file whose baseline slot is a placeholder)
+	truncText map[string]func() string
 
 	byID map[string]*Dev
 	memo map[string][]res
@@ -160,6 +180,17 @@ func (d *docEntry) prepare() {
 	for _, fn := range d.trunc {
 		txt := files[fn].text()
 		for n := 0; n < len(txt); n++ {
+			d.devs = append(d.devs, Dev{ID: fmt.Sprintf("%s:trunc@%d", fn, n), Class: fn + ":truncated", File: fn, Text: txt[:n]})
+		}
+	}
+	var tnames []string
+	for fn := range d.truncText {
+		tnames = append(tnames, fn)
+	}
+	sort.Strings(tnames)
+	for _, fn := range tnames {
+		txt := d.truncText[fn]()
+		for n := 1; n < len(txt); n++ {
 			d.devs = append(d.devs, Dev{ID: fmt.Sprintf("%s:trunc@%d", fn, n), Class: fn + ":truncated", File: fn, Text: txt[:n]})
 		}
 	}
@@ -268,9 +299,32 @@ func firstBad(rs []res) *res {
 	return nil
 }
 
-func hasBad(rs []res, stage, kind, site string) *res {
+// where names the place of a bad result for keys and for matching during
+// minimisation: the panicking Helm function when there is one (so that the
+// same defect reached through two stages is one class), else the stage.
+func (r res) where() string {
+	if r.Kind == "panic" && r.Site != "" {
+		return "in:" + r.Site
+	}
+	return "stage:" + stageClass(r.Stage)
+}
+
+func (r res) kindKey() string {
+	if r.Kind == "fatal" || r.Kind == "hang" {
+		// "dies of a fatal runtime error" and "never returns" are one class:
+		// unbounded recursion shows as either, depending on how fast the
+		// stack limit is reached
+		return "no-return"
+	}
+	if r.Kind == "panic" && r.PClass != "" {
+		return "panic:" + r.PClass
+	}
+	return r.Kind
+}
+
+func hasBad(rs []res, like res) *res {
 	for i := range rs {
-		if rs[i].bad() && rs[i].Stage == stage && rs[i].Kind == kind && rs[i].Site == site {
+		if rs[i].bad() && rs[i].kindKey() == like.kindKey() && rs[i].where() == like.where() {
 			return &rs[i]
 		}
 	}
@@ -281,7 +335,7 @@ func hasBad(rs []res, stage, kind, site string) *res {
 // that still shows the same bad stage/kind/site.
 func (d *docEntry) minimise(e *env, ids []string, b res) []string {
 	n := len(ids)
-	if n <= 1 {
+	if n == 0 {
 		return ids
 	}
 	var subsets [][]string
@@ -296,7 +350,7 @@ func (d *docEntry) minimise(e *env, ids []string, b res) []string {
 	}
 	sort.SliceStable(subsets, func(i, j int) bool { return len(subsets[i]) < len(subsets[j]) })
 	for _, s := range subsets {
-		if hasBad(d.runMemo(e, s), b.Stage, b.Kind, b.Site) != nil {
+		if hasBad(d.runMemo(e, s), b) != nil {
 			return s
 		}
 	}
@@ -304,23 +358,38 @@ func (d *docEntry) minimise(e *env, ids []string, b res) []string {
 }
 
 func (d *docEntry) keyFor(ids []string, b res) string {
-	if b.Kind == "fatal" && b.Site != "" {
-		b.Kind = "fatal:" + b.Site
-	}
+
 	var cls []string
 	for _, id := range ids {
 		if dv := d.byID[id]; dv != nil {
-			cls = append(cls, dv.class())
+			if b.Kind == "panic" && b.Site != "" {
+				// the panicking function and the panic class already name the
+				// defect; the shape only says which document carried it
+				cls = append(cls, dv.File)
+			} else {
+				cls = append(cls, dv.class())
+			}
 		} else {
 			cls = append(cls, id)
 		}
 	}
 	sort.Strings(cls)
+	cls = uniq(cls)
 	shape := strings.Join(cls, "+")
 	if shape == "" {
 		shape = "baseline"
 	}
-	return core.SanitizeKey(fmt.Sprintf("%s/%s/%s/%s", d.name, b.Stage, b.Kind, shape))
+	return core.SanitizeKey(fmt.Sprintf("%s/%s/%s/%s", d.name, b.kindKey(), b.where(), shape))
+}
+
+func uniq(xs []string) []string {
+	var out []string
+	for i, x := range xs {
+		if i == 0 || x != xs[i-1] {
+			out = append(out, x)
+		}
+	}
+	return out
 }
 
 // violations turns the bad stages of one case into violations (minimised).
@@ -334,7 +403,7 @@ func (d *docEntry) violations(e *env, ids []string, rs []res) []core.Violation {
 		min := d.minimise(e, ids, b)
 		bb := b
 		if len(min) != len(ids) {
-			if x := hasBad(d.runMemo(e, min), b.Stage, b.Kind, b.Site); x != nil {
+			if x := hasBad(d.runMemo(e, min), b); x != nil {
 				bb = *x
 			}
 		}
@@ -422,7 +491,7 @@ func (d *docEntry) Explore(e *env) {
 			}
 		}
 		rd := replayData{Entry: d.name, Devs: ids}
-		rd.Key = d.keyFor(ids, res{Stage: "any", Kind: "crash"})
+		rd.Key = d.keyFor(ids, res{Stage: "driver", Kind: "crash"})
 		c.Mark(mustJSON(rd))
 		c.Eval(1)
 		c.Distinct(d.name + "|" + strings.Join(ids, "|"))
@@ -466,17 +535,25 @@ func (d *docEntry) Explore(e *env) {
 	if k >= 2 {
 		// quick: pairs over the Core deviations; thorough: pairs over all
 		// (truncations stay single deviations)
-		all := c.Thorough() || d.pairAll
+		inPairs := func(x *Dev) bool {
+			switch {
+			case d.pairAll, x.Core:
+				return true
+			case c.Thorough():
+				return !d.widePairs || x.Wide
+			}
+			return false
+		}
 		np := 0
 		for i := 0; i < n; i++ {
 			a := &d.devs[i]
-			if isTrunc(a) || !(all || a.Core) {
+			if isTrunc(a) || !inPairs(a) {
 				continue
 			}
 			np++
 			for j := i + 1; j < n; j++ {
 				b := &d.devs[j]
-				if isTrunc(b) || !(all || b.Core) || conflict(a, b) {
+				if isTrunc(b) || !inPairs(b) || conflict(a, b) {
 					continue
 				}
 				one([]string{a.ID, b.ID})
@@ -632,7 +709,7 @@ func genericYAMLDocs(file string) []Dev {
 		"deep-list", "a: "+deep1k+"\n",
 		"deep-map", "a: "+deepMap+"\n",
 		"deep-100k", "a: "+strings.Repeat("[", 100000)+"\n",
-		"deep-indent", deepIndent(2000),
+		"deep-indent", deepIndent(300),
 		"alias-self", "a: &x [*x]\n",
 		"alias-undefined", "a: *nope\n",
 		"alias-bomb", aliasBomb(),
@@ -645,7 +722,7 @@ func genericYAMLDocs(file string) []Dev {
 		"tags", "a: !!binary notbase64!\nb: !!int x\nc: !!python/object:os.system {}\nd: !!map [1]\ne: !!timestamp nope\n",
 		"binary", "a: !!binary aGVsbG8=\n",
 		"long-key", longStr+": 1\n",
-		"long-line", "a: "+longStr+longStr+longStr+longStr+longStr+longStr+longStr+"\n",
+		"long-line", "a: "+longStr+longStr+"\n",
 		"json", `{"a": {"b": [1, null, {"c": "d"}]}}`+"\n",
 		"json-trailing", `{"a": 1} x`+"\n",
 		"crlf", "a: 1\r\nb:\r\n  c: 2\r\n",
